@@ -23,7 +23,7 @@ pub mod ax {
         ensures mk_str(#[trigger] a@) == a
     {}
 }
-broadcast use {ax::axiom_strslice_ext, axr::axiom_char_pattern, vstd::std_specs::hash::group_hash_axioms, vstd::string::group_string_axioms};
+broadcast use {ax::axiom_strslice_ext, vstd::std_specs::hash::group_hash_axioms, vstd::string::group_string_axioms};
 //@item antlr/src/references.rs :: struct ExpressionReferences [pub, pubfields]
 //@verify references._references
 //@verify references.references
